@@ -67,16 +67,54 @@ def writer_keys(repo, c, model):
                         env2 = ft.comp_env(n.generators, env)
                         add_dict(elt, False, env2, f"{level}{k}[].")
 
+    single_defs = {}
+    for st in walk_local_stmt(f.node):
+        if isinstance(st, ast.Assign) and len(st.targets) == 1 and isinstance(st.targets[0], ast.Name):
+            single_defs.setdefault(st.targets[0].id, []).append(st.value)
+
+    def lit(e):
+        """a local that names one dict literal (`fragment = {...}` ... `return maybeAdd(fragment, **optional)`) stands for it"""
+        hops = 0
+        while isinstance(e, ast.Name) and len(single_defs.get(e.id, [])) == 1 and hops < 3:
+            e = single_defs[e.id][0]
+            hops += 1
+        return e
+
+    def later_stores(name):
+        """`fragment["name"] = value` after the literal: further keys of the document (optional when under an `if`)"""
+        def scan(stmts, conditional):
+            for st in stmts:
+                if isinstance(st, ast.Assign) and len(st.targets) == 1 and isinstance(st.targets[0], ast.Subscript) and \
+                        isinstance(st.targets[0].value, ast.Name) and st.targets[0].value.id == name and \
+                        isinstance(st.targets[0].slice, ast.Constant) and isinstance(st.targets[0].slice.value, str):
+                    v = st.value
+                    hops = 0
+                    while isinstance(v, ast.Name) and len(single_defs.get(v.id, [])) == 1 and hops < 3:
+                        v = single_defs[v.id][0]
+                        hops += 1
+                    wk = WKey(st.targets[0].slice.value, v, conditional, env_of, "")
+                    value_info(wk)
+                    out.append(wk)
+                for fld in ("body", "orelse"):
+                    b = getattr(st, fld, None)
+                    if isinstance(b, list) and b and isinstance(b[0], ast.stmt) and not isinstance(st, (ast.FunctionDef, ast.ClassDef)):
+                        scan(b, True)
+        env_of = ft.env
+        scan(f.node.body, False)
+
     def from_return(e, env):
         nonlocal scalar_return
+        if isinstance(e, ast.Name) and len(single_defs.get(e.id, [])) == 1 and isinstance(single_defs[e.id][0], ast.Dict):
+            later_stores(e.id)
+        e = lit(e)
         if isinstance(e, ast.Dict):
             add_dict(e, False, env, "")
         elif isinstance(e, ast.Call) and (call_name(e) or "").split(".")[-1] == "maybeAdd":
-            if e.args and isinstance(e.args[0], ast.Dict):
-                add_dict(e.args[0], False, env, "")
+            if e.args and isinstance(lit(e.args[0]), ast.Dict):
+                add_dict(lit(e.args[0]), False, env, "")
             for kw in e.keywords:
-                if kw.arg is None and isinstance(kw.value, ast.Dict):
-                    add_dict(kw.value, True, env, "")
+                if kw.arg is None and isinstance(lit(kw.value), ast.Dict):
+                    add_dict(lit(kw.value), True, env, "")
                 elif kw.arg is not None:
                     wk = WKey(kw.arg, kw.value, True, env, "")
                     value_info(wk)
